@@ -103,22 +103,45 @@ def TypeDesc.regular (t : TypeDesc) : Bool :=
 def TypeDesc.repaired (t : TypeDesc) : TypeDesc :=
   { t with refuseEmpty := false, blindEmpty := false, addFreshNew := false }
 
-/-! semantic reading of a descriptor (values are modelled as integers; float32 values as the
-    integers they hold — the harness uses integral floats below 2^24) -/
+/-! semantic reading of a descriptor.  In the drivers every value is an integer:
+    * int32 / int64 values: the number itself (`add` wraps);
+    * float32 values: the IEEE-754 **bit pattern** (0 … 2^32-1); `add` is float32 addition and `ContainsValue`
+      compares with float `==` (NaN ≠ NaN, +0 = -0), both computed by Lean's `Float32` (the theorems are
+      generic in `comb` and `veq`, so nothing is assumed about them);
+    * interface{} values: a boxed integer, or `nilValue` for a stored `nil`. -/
 
 def wrapBits (bits : Nat) (x : Int) : Int :=
   let m : Int := (2 : Int) ^ bits
   let h : Int := (2 : Int) ^ (bits - 1)
   (x + h) % m - h
 
+def f32OfBits (a : Int) : Float32 := Float32.ofBits a.toNat.toUInt32
+
+def f32add (a b : Int) : Int := ((f32OfBits a + f32OfBits b).toBits.toNat : Int)
+
+def f32eq (a b : Int) : Bool := f32OfBits a == f32OfBits b
+
+/-- a NaN bit pattern (payloads are not compared: both sides print `nan`) -/
+def f32isNaN (a : Int) : Bool := a / 8388608 % 256 == 255 && a % 8388608 != 0
+
+/-- the stored `nil` of the interface{}-valued maps (outside the int64 range of boxed values) -/
+def nilValue : Int := 1180591620717411303424
+
 def TypeDesc.comb (t : TypeDesc) : Int → Int → Int :=
   match t.addOp, t.val with
   | .assign, _ => fun _ b => b
   | .accumulate, .int32 => fun a b => wrapBits 32 (a + b)
   | .accumulate, .int64 => fun a b => wrapBits 64 (a + b)
+  | .accumulate, .float32 => f32add
   | _, _ => fun a b => a + b
 
+def TypeDesc.veq (t : TypeDesc) : Int → Int → Bool :=
+  match t.val with
+  | .float32 => f32eq
+  | _ => fun a b => a == b
+
 def TypeDesc.descOf {K : Type} (t : TypeDesc) (isEmpty : K → Bool) : Desc K Int :=
-  { comb := t.comb, refuse := fun k => t.refuseEmpty && isEmpty k, blind := fun k => t.blindEmpty && isEmpty k }
+  { comb := t.comb, veq := t.veq,
+    refuse := fun k => t.refuseEmpty && isEmpty k, blind := fun k => t.blindEmpty && isEmpty k }
 
 end HMap
